@@ -3,6 +3,7 @@ import Proofs.C08Bits
 import Proofs.C08Inv
 import Proofs.C08Step
 import Proofs.C08Seq
+import Proofs.C08Exhaust
 /-!
 # C08 — stream ids are unique while in use, never 0 or out of range, and all get used
 
@@ -276,7 +277,61 @@ theorem C08_clear_reports (sh : Shared) (id : Nat) (hid : id < 64 * sh.words.len
       · simpa [length_clrBit] using hlt
       · simp [hbits]
 
+
+/-! ### no false exhaustion -/
+
+/-- `GetStream` never reports exhaustion while some id stays free for the whole duration of the
+    call. The caller is looked at in isolation: its k-th atomic operation acts on `env[k]`, an
+    ARBITRARY shared state with `n` words (whatever the other goroutines did in between). If the call
+    returns `0, false` then every id was in use at one of those moments. (Lock-freedom only: while a
+    free id keeps being snatched away the caller may retry for ever — `threadRun` then has no result.) -/
+theorem C08_no_false_exhaustion (n : Nat) (hn : 0 < n) (env : List Shared)
+    (hlen : ∀ sh, sh ∈ env → sh.words.length = n)
+    (h : (threadRun (startPC .get) env).2 = some (.stream 0 false)) :
+    ∀ id, id < 64 * n → ∃ sh, sh ∈ env ∧ bitAt sh.words id = true := by
+  intro id hid
+  rcases threadRun_exhausted hn env .g1 (fun _ => False) hlen trivial h id hid with h | h
+  · exact h.elim
+  · exact h
+
+/-- contrapositive: an id that is free at every step of the call makes the call not fail -/
+theorem C08_no_false_exhaustion_contra (n : Nat) (hn : 0 < n) (env : List Shared)
+    (hlen : ∀ sh, sh ∈ env → sh.words.length = n) (id : Nat) (hid : id < 64 * n)
+    (hfree : ∀ sh, sh ∈ env → bitAt sh.words id = false) :
+    (threadRun (startPC .get) env).2 ≠ some (.stream 0 false) := by
+  intro h
+  obtain ⟨sh, hm, hb⟩ := C08_no_false_exhaustion n hn env hlen h id hid
+  rw [hfree sh hm] at hb; cases hb
+
+/-! ### what does NOT hold on the unchanged code: `Available()` while calls are in progress
+
+Full statement of the property text ("the available count always equals the number of
+non-reserved ids not handed out"):
+  `∀ reachable s, available s.sh = 64 * n - 1 - s.held.length`.
+It holds when no call is in progress (`C08_count`, third part = the `_partial` form with the
+excluding hypothesis "all threads idle"). In general it is off by the number of `Clear` calls that
+have cleared their bit but not yet decremented the counter minus the number of `GetStream` calls that
+have set their bit but not yet incremented it (`C08_count`, first part) and can even be negative: -/
+
+def oneGet (t : Nat) : List Action := [.start t .get, .step t, .step t, .step t, .step t]
+
+/-- 128-id generator, 2 goroutines: goroutine 0 acquires all 127 ids, calls `Clear(1)` and is
+    pre-empted between the CAS and the decrement; goroutine 1 acquires id 1. -/
+def cexAvailable : List Action :=
+  (List.replicate 126 (oneGet 0)).flatten ++ oneGet 0 ++ [.step 0] ++ [.start 0 (.clear 1), .step 0]
+    ++ oneGet 1 ++ [.step 1]
+
+set_option maxRecDepth 100000 in
+/-- … now 127 ids are handed out (0 free) and `Available()` = -1 -/
+theorem C08_cex_available_transient :
+    (run (initState 2 2) cexAvailable).map (fun s => (s.held.length, available s.sh)) = some (127, -1) := by
+  decide
+
 /-! ### non-vacuity -/
+
+/-- the hypothesis of `C08_no_false_exhaustion` is satisfiable: a full generator -/
+example : let full : Shared := { words := [allOnes, allOnes], inuse := 127, offset := 1 }
+    (threadRun (startPC .get) [full, full, full, full]).2 = some (.stream 0 false) := by decide
 
 /-- the machine runs: two threads race for ids on the 128-id generator -/
 example : (run (initState 2 2) [.start 0 .get, .start 1 .get, .step 0, .step 1, .step 1, .step 1, .step 0]).isSome = true := by
